@@ -370,12 +370,12 @@ def _is_simple_comp(t):
     return t.op == "comp" and t.args[0] == "list" and len(t.args) == 3 and len(t.args[2]) == 1 and not t.args[2][0][1]
 
 
-def _direct_jumps(body) -> bool:
+def _direct_jumps(body, kinds=(ast.Break, ast.Continue, ast.Return)) -> bool:
     """break / continue / return directly in a loop body (not inside a nested loop or function)"""
     stack = list(body)
     while stack:
         n = stack.pop()
-        if isinstance(n, (ast.Break, ast.Continue, ast.Return)):
+        if isinstance(n, kinds):
             return True
         if isinstance(n, (ast.For, ast.While, ast.AsyncFor, ast.FunctionDef, ast.AsyncFunctionDef, ast.ClassDef, ast.Lambda)):
             continue
@@ -933,6 +933,18 @@ class Evaluator:
                         self._assign(s.target, pair, bst, s, loop_target=True)
 
                     return self._loop(s, st, s.body, s.orelse, el, bind_d, lev)
+        # `kept = [x for x in xs if c]` ... `for x in kept: BODY`  is  `for x in xs: if c: BODY`
+        if it.op == "comp" and it.args[0] == "list" and len(it.args) == 3 and len(it.args[2]) == 1 and it.args[2][0][1] and not s.orelse \
+                and it.args[1] is mk("elem", it.args[2][0][0]):
+            src, conds = it.args[2][0]
+            el = mk("elem", src)
+            lev = self._emit("loop", s, st, iter=src, elem=el)
+
+            def bind_f(bst, conds=conds):
+                bst.pc = tuple(bst.pc) + tuple(conds)
+                self._assign(s.target, el, bst, s, loop_target=True)
+
+            return self._loop(s, st, s.body, s.orelse, el, bind_f, lev)
         # a loop over a list built by a one-generator comprehension visits f(x) for each x of the source in order
         if depth and _is_simple_comp(it) and not s.orelse:
             src = it.args[2][0][0]
@@ -945,8 +957,12 @@ class Evaluator:
             return self._loop(s, st, s.body, s.orelse, el, bind_c, lev)
         # a table-driven loop `for k, v in ((K1, a), (K2, b), (K3, c)): BODY` is BODY for each record in turn: unrolled, so that
         # what flows into v is a, b, c themselves (label provenance, aliasing) and not "some element of a tuple"
-        if it.op in ("tuple", "list") and 1 <= len(it.args[0]) <= 6 and all(x.op in ("tuple", "list") for x in it.args[0]) \
-                and isinstance(s.target, (ast.Tuple, ast.List)) and not s.orelse and not _direct_jumps(s.body):
+        table = it.op in ("tuple", "list") and 1 <= len(it.args[0]) <= 6 and all(x.op in ("tuple", "list") for x in it.args[0]) \
+            and isinstance(s.target, (ast.Tuple, ast.List))
+        # ... and the search idiom `for cand in (A, B): if test(cand): return v` (then a raise / default after the loop)
+        search = it.op in ("tuple", "list") and 1 <= len(it.args[0]) <= 6 and isinstance(s.target, ast.Name) \
+            and _direct_jumps(s.body, (ast.Return,))
+        if (table or search) and not s.orelse and not _direct_jumps(s.body, (ast.Break, ast.Continue)):
             cur = st
             out = []
             for item in it.args[0]:
